@@ -162,10 +162,10 @@ pub fn explore(ctx: &Ctx) {
     ctx.assume("a substitute-latitude time that does not exist conventionally at the substitute latitude is not judged");
     ctx.assume("minutes-from-maghrib-invalid is judged with the intervals it consumes (custom Fajr 45 / Isha 90) and with angle methods (interval 0)");
     let lats = [0.0, 30.0, -30.0, 48.5, -48.5, 55.0, -55.0, 60.0, -60.0];
-    let zs: Vec<(f64, f64)> = if quick { vec![(25.0, 2.0)] } else { vec![(25.0, 2.0), (-100.0, -6.0)] };
+    let zs: Vec<(f64, f64)> = vec![(25.0, 2.0), (-100.0, -6.0)];
     let subs = [-60.0, -30.0, 0.0, 30.0, 48.5, 60.0];
     let pols = policies(&subs);
-    let years: Vec<i32> = if quick { vec![2024] } else { let mut y: Vec<i32> = (1600..2400).step_by(25).collect(); y.extend([2023, 2024, 2399]); y };
+    let years: Vec<i32> = if quick { vec![2023, 2024] } else { let mut y: Vec<i32> = (1600..2400).step_by(25).collect(); y.extend([2023, 2024, 2399]); y };
     let dates = dates_of_years(&years);
     // parameter sets: 8 named methods + custom intervals on an angle method
     let mut psets: Vec<Params> = NAMED8.iter().map(|m| params_conv(*m)).collect();
